@@ -39,11 +39,14 @@ class LazySeq:
 
     def iterate(self, it):
         k = 0
+        if not isinstance(self.length, int) and not it.ctx.is_true(zint(self.length) <= 8):
+            # unrolling only makes sense when the path condition bounds the length; otherwise the loop needs an invariant
+            raise Unsupported("iteration over a sequence of unbounded symbolic length without a loop invariant")
         while True:
             if not it.ctx.decide(I(k) < zint(self.length)):
                 return
-            if k >= 64:
-                raise Unsupported("iteration over a symbolic-length sequence without a loop invariant (64 elements unrolled)")
+            if k >= 8:
+                raise Unsupported("iteration over a symbolic-length sequence without a loop invariant (8 elements unrolled)")
             yield self.elem(I(k))
             k += 1
 
